@@ -10,7 +10,7 @@ Driver of C08. One request per line:
   pyidx <cps> <i>                Python's own `s[i]`     (`pyIndex`)
 
 Postfix tokens: `s:<cps>`  `c:<col>:<cps>`  `ls:<n>`  `tp:<n>`  `mk:<n>`  `add`  `iadd`
-`join:<l|t>:<n>` (stack: sep item1 … itemn)  `idx:<i>`  `sl:<i|n>:<j|n>`  `fl:<n>`.
+`join:<l|t>:<n>` (stack: sep item1 … itemn)  `idx:<i>`  `sl:<i|n>:<j|n>`  `fl:<n>`  `iter`.
 The program is turned into a `CHText.Expr` and handed to `CHText.eval` (the function the theorems
 are about).
 -/
@@ -44,6 +44,9 @@ def stepTok (st : List Expr) (tok : String) : Option (List Expr) :=
     | _ => none
   | ["iadd"] => match st with
     | b :: a :: rest => some (Expr.iadd a b :: rest)
+    | _ => none
+  | ["iter"] => match st with
+    | a :: rest => some (Expr.iter a :: rest)
     | _ => none
   | ["dupiadd"] => match st with      -- `x += x` (opt-in aliasing stream): the value semantics
     | a :: rest => some (Expr.iadd a a :: rest)
@@ -82,7 +85,8 @@ def showCells (cs : Cells) : String :=
 mutual
 def showPart : Part → String
   | .str s => "S " ++ showCps s
-  | .chunk c => "C " ++ showChunk c ++ " L " ++ toString c.text.length
+  | .chunk c => "C " ++ showChunk c ++ " L " ++ toString c.text.length ++ " P " ++ showCps (c.cells.map (·.1))
+      ++ " X " ++ showCells c.cells
   | .text t => "T " ++ toString t.scrlen ++ " " ++ showChunks t.chunks ++ " P " ++ showCps (t.cells.map (·.1))
       ++ " X " ++ showCells t.cells
   | .list tp ps => (if tp then "TP(" else "LS(") ++ showParts ps ++ ")"
